@@ -201,3 +201,85 @@ func vhHeaderInt(head, name string) int {
 	}
 	return vhAtoi(head[j:k])
 }
+
+// VH_C17_resp_wellformed: in RESP mode every reply - error replies that echo client text included - is exactly
+// one well-formed RESP value (the client text is symbolic: CR, LF and every other byte).
+//verif:cfg b_commands=8 b_echoed_argument_bytes=0..2_symbolic ignorego=1
+func VH_C17_resp_wellformed() {
+	s, _ := vhGateServer()
+	x := vnondetString(2)
+	cmds := [][]string{
+		{"DEL", "fleet", "truck1", x}, {"zz" + x, "a"}, {"SET", "fleet", "t9", "POINT", "q" + x, "2"}, {"GET", "fleet", x},
+		{"GET", "fleet", "truck1", x}, {"EXPIRE", "fleet", "truck1", "q" + x}, {"ECHO", x}, {"OUTPUT", x},
+	}
+	c := cmds[vchoose(len(cmds))]
+	vassume(c[0] != "")
+	client := &Client{}
+	msg := &Message{Args: append([]string(nil), c...), ConnType: RESP, OutputType: RESP}
+	err := s.handleInputCommand(client, msg)
+	out := string(client.out)
+	vobs("resp", c[0], x)
+	vassert("C17.K2.no_transport_error", err == nil)
+	vassert("C17.K2.exactly_one_wellformed_resp_value", vhOneRESPValue(out))
+}
+
+// vhOneRESPValue: out is exactly one RESP value (simple string, error, integer, bulk, or array thereof).
+func vhOneRESPValue(out string) bool {
+	n, ok := vhRESPLen(out, 0, 0)
+	return ok && n == len(out)
+}
+
+func vhRESPLen(s string, i int, depth int) (int, bool) {
+	if i >= len(s) || depth > 4 {
+		return 0, false
+	}
+	switch s[i] {
+	case '+', '-', ':':
+		for j := i + 1; j < len(s); j++ {
+			if s[j] == '\n' {
+				return 0, false // a bare LF inside a line
+			}
+			if s[j] == '\r' {
+				if j+1 < len(s) && s[j+1] == '\n' {
+					return j + 2, true
+				}
+				return 0, false
+			}
+		}
+		return 0, false
+	case '$', '*':
+		j := i + 1
+		neg := false
+		if j < len(s) && s[j] == '-' {
+			neg = true
+			j++
+		}
+		n, d := 0, 0
+		for ; j < len(s) && s[j] >= '0' && s[j] <= '9'; j++ {
+			n = n*10 + int(s[j]-'0')
+			d++
+		}
+		if d == 0 || j+1 >= len(s) || s[j] != '\r' || s[j+1] != '\n' {
+			return 0, false
+		}
+		j += 2
+		if neg {
+			return j, n == 1
+		}
+		if s[i] == '$' {
+			if j+n+2 > len(s) || s[j+n] != '\r' || s[j+n+1] != '\n' {
+				return 0, false
+			}
+			return j + n + 2, true
+		}
+		for k := 0; k < n; k++ {
+			var ok bool
+			j, ok = vhRESPLen(s, j, depth+1)
+			if !ok {
+				return 0, false
+			}
+		}
+		return j, true
+	}
+	return 0, false
+}
